@@ -1,1 +1,19 @@
-fn main() {}
+//! Checker binary for the properties anchored in the SDK's pure functions (C42, C43).
+mod c42;
+mod c43;
+
+use mc_core::{Cli, Report};
+
+fn main() {
+    let cli = Cli::parse();
+    mc_core::quiet_panics();
+    let rep: Report = match cli.property.as_str() {
+        "C42" => c42::run(&cli),
+        "C43" => c43::run(&cli),
+        other => {
+            eprintln!("unknown property {other}");
+            std::process::exit(2)
+        }
+    };
+    std::process::exit(rep.finish(&cli));
+}
